@@ -17,6 +17,54 @@ from harness import core, tlc, tlaval
 from harness import models as hm
 
 WORKERS = int(os.environ.get('VERIF_TLC_WORKERS', '8'))
+
+
+# ------------------------------------------------------------------------------------------------
+# no TLC process may outlive the check: explicit timeouts on every run, and all descendants are killed on exit /
+# SIGTERM / SIGINT / SIGHUP (a killed check must not leave a JVM behind)
+# ------------------------------------------------------------------------------------------------
+TLC_TIMEOUT = int(os.environ.get('VERIF_TLC_TIMEOUT', '1500'))
+
+
+def _descendants(pid):
+    kids = {}
+    for name in os.listdir('/proc'):
+        if name.isdigit():
+            try:
+                with open('/proc/%s/stat' % name) as f:
+                    fields = f.read().rsplit(')', 1)[1].split()
+                kids.setdefault(int(fields[1]), []).append(int(name))
+            except (OSError, IndexError, ValueError):
+                pass
+    out, todo = [], [pid]
+    while todo:
+        for k in kids.get(todo.pop(), []):
+            out.append(k)
+            todo.append(k)
+    return out
+
+
+def _kill_children(*_sig):
+    import signal
+    for k in _descendants(os.getpid()):
+        try:
+            os.kill(k, signal.SIGKILL)
+        except OSError:
+            pass
+    if _sig:  # called as a signal handler: terminate with the conventional status
+        os._exit(128 + _sig[0])
+
+
+def _install_reaper():
+    import atexit
+    import signal
+    atexit.register(_kill_children)
+    for s in (signal.SIGTERM, signal.SIGINT, signal.SIGHUP):
+        try:
+            signal.signal(s, _kill_children)
+        except (ValueError, OSError):
+            pass
+
 TOL = 1e-9
 
 
@@ -296,7 +344,7 @@ def step(ctx, im, marks, l, hist, n, cfg):
 
 # ------------------------------------------------------------------------------------------------
 def run_mc(ctx, name, configs, maxops, catlimit, stride):
-    res, dump, d = tlc.mc('MPOAlgebra', alg_cfg(configs, maxops, catlimit), dump=True, workers=WORKERS)
+    res, dump, d = tlc.mc('MPOAlgebra', alg_cfg(configs, maxops, catlimit), dump=True, workers=WORKERS, timeout=TLC_TIMEOUT)
     ctx.add_mc(name, res)
     if res.violated:
         ctx.violation(dict(kind='mc', spec='MPOAlgebra', invariant=res.violated[0]), dict(trace=tlaval.to_jsonable(res.error_trace)[-3:]))
@@ -318,7 +366,7 @@ def run_mc(ctx, name, configs, maxops, catlimit, stride):
 
 def run_sim(ctx, configs, num, depth):
     res, traces, d = tlc.simulate('MPOAlgebra', alg_cfg(configs, depth, 0, props=False), num=max(1, num // 4), depth=depth + 1,
-                                  seed=ctx.seed + 3, workers=4)
+                                  seed=ctx.seed + 3, workers=4, timeout=TLC_TIMEOUT)
     shutil.rmtree(d, ignore_errors=True)
     n = 0
     for j, tr in enumerate(traces):
@@ -357,6 +405,7 @@ def run_canary(ctx):
 
 
 def check(ctx):
+    _install_reaper()
     quick = ctx.tier == 'quick'
     ctx.rule = ('a case = one replayed step of a TLC behaviour (an MPO method applied to real MPO objects, both operator slots '
                 'projected to dense matrices and the method result compared); distinct = distinct (behaviour, step, operation record)')
